@@ -50,12 +50,25 @@ def gen(rng, tier):
             names = ['q%d' % i for i in range(1, rng.randint(2, 6))]   # collide with fresh_state hints q1, q2, ...
         n = len(names) if names else rng.randint(1, 7)
         singles.append(G.random_dfa(rng, n, rng.choice(['a', 'ab', 'abc']), names=names))
+    # more than ten numbered states (q9 / q10 / q11: text order differs from numeric order) and tricky names
+    for _ in range(25 if quick else 400):
+        names = ['q%d' % i for i in range(rng.choice([0, 1]), rng.randint(11, 13))]
+        singles.append(G.random_dfa(rng, len(names), rng.choice(['a', 'ab']), names=names, pfinal=0.2))
+    for _ in range(40 if quick else 600):
+        k = rng.randint(2, 6)
+        singles.append(G.random_dfa(rng, k, rng.choice(['a', 'ab']), names=G.tricky_names(rng, k)))
     for d in singles:
         cases.append({'kind': 'one', 'D': d})
     for _ in range(150 if quick else 2000):
         names = ['trap1', 'q0', 'q1'] if rng.random() < 0.2 else None
         d = G.random_dfa(rng, len(names) if names else rng.randint(1, 5), rng.choice(['a', 'ab']), names=names)
         d['delta'] = [e for e in d['delta'] if rng.random() < 0.7]
+        cases.append({'kind': 'total', 'D': d})
+    for _ in range(15 if quick else 300):
+        names = ['trap%d' % i for i in range(1, rng.randint(11, 12))] + ['s']
+        d = G.random_dfa(rng, len(names), 'a', names=names)
+        d['q0'] = 's'
+        d['delta'] = [e for e in d['delta'] if rng.random() < 0.8]
         cases.append({'kind': 'total', 'D': d})
     words = [''.join(w) for k in range(3) for w in itertools.product('ab', repeat=k)]
     langs = [list(c) for k in range(4) for c in itertools.combinations(words, k)]
